@@ -3,7 +3,7 @@
    arguments and encoding of results is done here, inside Coq, so that the
    OCaml driver contains no logic and the same cases can be re-evaluated with
    vm_compute in the kernel. *)
-From PSA Require Import model.Bytes model.Checksum model.Layer model.Dhcp model.Clients model.Ipdb model.IpdbCheck spec.SpecCodec.
+From PSA Require Import model.Bytes model.Checksum model.Layer model.Dhcp model.Clients model.Ipdb model.IpdbCheck spec.SpecCodec spec.SpecTable spec.SpecIpdb model.Server.
 Open Scope N_scope.
 
 Definition arg (args : list (list N)) (i : nat) : list N := nth i args [].
@@ -104,8 +104,91 @@ Definition dispatch_c11 (tag : N) (a : list (list N)) : list (list N) :=
   | _ => [[99]]
   end.
 
+(* ---- server histories (C01-C10) ---- *)
+Definition LL := list (list N).
+Definition hd0 (l : LL) : list N := match l with x :: _ => x | [] => [] end.
+Definition n0 (l : list N) (i : nat) : N := nth i l 0.
+
+Fixpoint take_pairs {A} (k : nat) (f : list N -> list N -> A) (l : LL) : list A * LL :=
+  match k with
+  | O => ([], l)
+  | S k' => match l with
+            | a :: b :: r => let (xs, rest) := take_pairs k' f r in (f a b :: xs, rest)
+            | _ => ([], [])
+            end
+  end.
+
+Definition take_opts (l : LL) : list dhcp_opt * LL :=
+  match l with
+  | cnt :: r => take_pairs (N.to_nat (n0 cnt 0)) (fun c d => (n0 c 0, d)) r
+  | [] => ([], [])
+  end.
+
+Fixpoint take_optables (k : nat) (l : LL) : list (bytes * list dhcp_opt) * LL :=
+  match k with
+  | O => ([], l)
+  | S k' => match l with
+            | mac :: r => let (os, r1) := take_opts r in
+                          let (xs, r2) := take_optables k' r1 in ((mac, os) :: xs, r2)
+            | [] => ([], [])
+            end
+  end.
+
+Definition dec_round_body (hdr pkt : list N) (l : LL) : round * LL :=
+  let narp := N.to_nat (n0 hdr 3) in let nout := N.to_nat (n0 hdr 4) in let nsnap := N.to_nat (n0 hdr 5) in
+  let (arps, l1) := take_pairs narp (fun a m => {| ar_ip := n0 a 0; ar_mac := m; ar_delay := Z.of_N (n0 a 1) |}) l in
+  let fix outs (k : nat) (l : LL) : list out_frame * LL :=
+    match k with
+    | O => ([], l)
+    | S k' => match l with
+              | t :: eth :: p :: r => let (xs, rest) := outs k' r in ({| of_t := Z.of_N (n0 t 0); of_eth := eth; of_pkt := p |} :: xs, rest)
+              | _ => ([], [])
+              end
+    end in
+  let (os, l2) := outs nout l1 in
+  let (sn, l3) := take_pairs nsnap (fun a d => {| sn_ip := n0 a 0; sn_duid := d; sn_until := zt (n0 a 3) (n0 a 1); sn_perm := negb (n0 a 2 =? 0) |}) l2 in
+  ({| r_t := Z.of_N (n0 hdr 0); r_pkt := pkt; r_arp := arps; r_outs := os; r_tq := Z.of_N (n0 hdr 1);
+      r_snap := sn; r_has_snap := negb (n0 hdr 2 =? 0) |}, l3).
+
+Fixpoint dec_rounds (k : nat) (l : LL) : list round :=
+  match k with
+  | O => []
+  | S k' => match l with
+            | hdr :: pkt :: r => let (rd, rest) := dec_round_body hdr pkt r in rd :: dec_rounds k' rest
+            | _ => []
+            end
+  end.
+
+(* returns the configuration and the rounds; None if the ipdb configuration is rejected by the model *)
+Definition dec_server_case (a : LL) : option (scfg * list round) :=
+  let cfg := arg a 0 in
+  match dec_ipdb [n0 cfg 2; n0 cfg 3; n0 cfg 4; 1; n0 cfg 5; 1; n0 cfg 6; n0 cfg 7] with
+  | None => None
+  | Some db =>
+    let self_mac := arg a 1 in
+    let nstat := N.to_nat (argn a 2 0) in
+    let (stats, l1) := take_pairs nstat (fun m i => (m, n0 i 0)) (skipn 3 a) in
+    let ntab := N.to_nat (n0 (hd0 l1) 0) in
+    let (tabs, l2) := take_optables ntab (tl l1) in
+    let (dflt, l3) := take_opts l2 in
+    let nr := N.to_nat (n0 (hd0 l3) 0) in
+    Some ({| c_self_ip := n0 cfg 0; c_self_mac := self_mac; c_lease := Z.of_N (n0 cfg 1); c_db := db;
+             c_statics := stats; c_opts := tabs; c_default_opts := dflt |}, dec_rounds nr (tl l3))
+  end.
+
+Definition dispatch_server (tag : N) (a : LL) : LL :=
+  match dec_server_case a with
+  | None => [[98]]
+  | Some (c, rounds) =>
+    match tag with
+    | 101 => [accept_history c (initial_table c) rounds]
+    | _ => [[99]]
+    end
+  end.
+
 Definition dispatch (tag : N) (a : list (list N)) : list (list N) :=
   if (1300 <=? tag) && (tag <? 1400) then dispatch_c13 tag a
   else if (1200 <=? tag) && (tag <? 1300) then dispatch_c12 tag a
   else if (1100 <=? tag) && (tag <? 1200) then dispatch_c11 tag a
+  else if (100 <=? tag) && (tag <? 1000) then dispatch_server tag a
   else [[99]].
